@@ -12,7 +12,7 @@ for f in os.listdir(src):
         shutil.copy(os.path.join(src, f), os.path.join(dst, f))
 m = json.load(open(os.path.join(dst, "meta.json")))
 m["seed_id"] = sid
-m["confirmed_by_me"] = {"what_i_ran": "/tmp/wt/confirm_seed.sh %s (cargo test --workspace --no-fail-fast --offline with the change: 617 passed, the 5 baseline failures; demo with the change vs. after git stash)" % wt,
+m["confirmed_by_me"] = {"what_i_ran": "/tmp/wt/confirm_seed.sh %s (cargo test --workspace --no-fail-fast --offline with the change: 617 passed, the 5 baseline failures; demo with the change vs. after git apply -R of the change)" % wt,
                         "result": "suite unchanged; demo output differs exactly as described"}
 m["caught_by"] = caught.split(",")
 m["detection_note"] = note
